@@ -7,6 +7,7 @@ import Frugal.Props.Inst.F_facts_rollback
 import Frugal.Props.Inst.F_valid_bitset
 import Frugal.Proofs.TypeKeyLemmas
 import Frugal.Props.Inst.F_facts_typeNodeCacheKeyed
+import Frugal.Props.Inst.F_skeleton_sharedWrites
 namespace Frugal.C07
 open Frugal
 /-- the required-field verdict is independent of the pooled presence set's prior contents -/
@@ -110,5 +111,12 @@ theorem leafless_key_is_not_faithful (nm : Nat → List Char) :
     allocation in `newTType`, no other use of `ttypes`, and `Type.String()` case by case) -/
 theorem type_node_cache_code_is_the_model : Generated.facts.typeNodeCacheKeyed = true :=
   Instances.facts_typeNodeCacheKeyed
+
+/-- no other process-wide state: every store into a package-level variable of `internal/reflect` and
+    `internal/defs` outside `init` is one of the descriptor build (modelled above), the type-node cache
+    (modelled above) or the caller-less caching resolver — the list of the tree the model was written from
+    (the pools are the remaining shared state: `presence_independent_of_pool`, `scratch_cleared`) -/
+theorem no_other_process_wide_state :
+    Generated.facts.sharedWriteSiteList = Skeleton.sharedWrites := Instances.skeleton_sharedWrites
 
 end Frugal.C07
